@@ -8,7 +8,7 @@ from . import pipeline as P
 TIERS = {
     'quick': dict(design_cfg='PoolsMC_small.cfg', sim_num=3200, sim_depth=40, rnd_num=2000, rnd_len=30,
                   design_timeout=600),
-    'thorough': dict(design_cfg='PoolsMC_thorough.cfg', sim_num=48000, sim_depth=48, rnd_num=40000, rnd_len=60,
+    'thorough': dict(design_cfg='PoolsMC_thorough.cfg', sim_num=24000, sim_depth=48, rnd_num=24000, rnd_len=60,
                      design_timeout=3000),
 }
 
